@@ -35,6 +35,19 @@ def import_bob():
             del sys.modules[m]
     import bob  # noqa
     assert os.path.abspath(os.path.dirname(bob.__file__)) == os.path.join(PYM, "bob"), bob.__file__
+    # pre-import everything the simulated processes use: they are forks of this
+    # process and must not pay (or race on) imports and .pyc writes
+    import importlib
+    for m in ("archive", "audit", "builder", "state", "share", "utils", "input", "invoker",
+              "languages", "intermediate", "scripts", "tty", "pathspec", "stringparser", "layers",
+              "scm", "scm.git", "scm.imp", "scm.url", "scm.scm", "scm.svn", "scm.cvs",
+              "cmds.build.build", "cmds.build.clean", "cmds.build.state", "cmds.build.project",
+              "cmds.build.query", "cmds.build.status", "cmds.archive", "cmds.misc", "cmds.show",
+              "cmds.helpers", "cmds.layers", "generators", "errors"):
+        try:
+            importlib.import_module("bob." + m)
+        except ImportError:
+            pass
     _bob_imported = True
 
 # ---------------------------------------------------------------------------
